@@ -25,6 +25,7 @@ class Path:
         self.forks = []      # (bb, outcome) decided by forking (unknown switches)
         self.writes = []     # (bb, place_str, abstract value)
         self.store = None    # abstract store at the return
+        self.assigns = []    # (bb, local, abstract value) for whole-local assignments to named locals
     def called(self, *pats):
         return [c for (_, c) in self.calls if c.is_(*pats)]
 
@@ -156,10 +157,16 @@ class Walker:
             for st in body.blocks[b]['stmts']:
                 if st['k'] == 'assign':
                     v = self.rvalue(st['rv'], store)
+                    if st['rv']['k'] in ('ref', 'rawptr') and st['rv'].get('mut') and not st['rv']['place'][1]:
+                        # a mutable borrow of a local escapes: whatever is known about the local is forgotten
+                        store.pop(st['rv']['place'][0], None)
+                        v = UNKNOWN
                     lhs = st['lhs']
                     if not lhs[1]:
                         if v is UNKNOWN: store.pop(lhs[0], None)
                         else: store[lhs[0]] = v
+                        if lhs[0] in body.local_names:
+                            path.assigns.append((b, lhs[0], v))
                     else:
                         path.writes.append((b, place_str(lhs, body), v))
                         store.pop(lhs[0], None) if lhs[1][0][0] != '*' else None
@@ -177,12 +184,20 @@ class Walker:
             if k in ('call', 'tailcall'):
                 c = Call(body, b, t)
                 path.calls.append((b, c))
-                v = self.std_model(c, store)
+                v = None
+                if self.call_model and getattr(self.call_model, 'first', False):
+                    v = self.call_model(self, c, store)
+                    if v is not None and v[0] == 'callres':
+                        v = None
+                if v is None:
+                    v = self.std_model(c, store)
                 if v is None:
                     v = self.call_model(self, c, store) if self.call_model else None
                 if t.get('dest') and not t['dest'][1]:
                     if v is None: store.pop(t['dest'][0], None)
                     else: store[t['dest'][0]] = v
+                    if t['dest'][0] in body.local_names:
+                        path.assigns.append((b, t['dest'][0], v if v is not None else UNKNOWN))
                 if t.get('t') is None:
                     path.end = 'diverge'; self.paths.append(path); return
                 b = t['t']; continue
@@ -210,7 +225,7 @@ class Walker:
                     if nb in done: continue
                     done.add(nb)
                     p2 = Path(); p2.calls = list(path.calls); p2.blocks = list(path.blocks)
-                    p2.forks = path.forks + [(b, outcome)]; p2.writes = list(path.writes)
+                    p2.forks = path.forks + [(b, outcome)]; p2.writes = list(path.writes); p2.assigns = list(path.assigns)
                     self._go(nb, dict(store), p2, dict(visits))
                 return
             raise Broken('absint: unknown terminator %s' % k)
